@@ -44,6 +44,26 @@ func newCaseDir() string {
 // StallTimeout bounds every controller wait (expected: micro- to milliseconds).
 var StallTimeout = 60 * time.Second
 
+// On an oversubscribed machine (1-minute load above the number of CPUs when
+// the process starts) the bound is stretched by the same factor, at most 6x:
+// the waits measure "never", not speed.
+func init() {
+	b, err := os.ReadFile("/proc/loadavg")
+	if err != nil {
+		return
+	}
+	var l1 float64
+	if _, err := fmt.Sscanf(string(b), "%f", &l1); err != nil {
+		return
+	}
+	if f := l1 / float64(runtime.NumCPU()); f > 1 {
+		if f > 6 {
+			f = 6
+		}
+		StallTimeout = time.Duration(float64(StallTimeout) * f)
+	}
+}
+
 // verifMergeOp is the oracle merge operator (see MergeFold).
 type verifMergeOp struct{ calls int64 }
 
